@@ -16,7 +16,7 @@ H = 4
 DELTA = 0.01
 BOUNDS = {'quick': 'die height 4 (then transposed: width 4), die extent on the other axis and all region boundaries on that axis '
                    'symbolic breakpoints 0<b1<...<W (gaps in [0.01,250]); k<=1 region on 16 placements x 3 kinds (blockage, '
-                   'specialised, fixed module) and k=2 regions on 14 placements with <=3 breakpoints; bands from {full, lower, middle, upper, lower half, upper half}; '
+                   'specialised, fixed module) and k=2 regions on 14 placements with <=3 breakpoints; k=3 regions at concrete places in all 60 mixed orders of the tags #/dsp/bram/fixed; bands from {full, lower, middle, upper, lower half, upper half}; '
                    'negative harness: one region sticking out, two regions overlapping',
           'thorough': 'k=2 all generated placements with all tag pairs, k=3 on stacked/side-by-side placements'}
 ASSUMPTIONS = ['R model; tolerances preset 1e-10/1e-5; distinct boundary coordinates differ by >= 0.01',
@@ -90,6 +90,12 @@ def cases(tier):
     for n_, (nb, a, b, ba, bb, _) in enumerate(bad2):
         ka, kb = kinds2[n_ % len(kinds2)]
         cs.append(dict(kind='overlap', nb=nb, regions=[[a[0], a[1], ba, ka], [b[0], b[1], bb, kb]], transposed=n_ % 2))
+    # three regions in every order of tags (concrete geometry: the order of the region list is what varies)
+    for tags in itertools.product(['#', 'dsp', 'bram', 'fixed'], repeat=3):
+        if len(set(tags)) < 2:
+            continue
+        cs.append(dict(kind='valid', nb=6, gaps=[1.0, 2.0, 0.5, 1.5, 1.0, 2.0], transposed=len(cs) % 2,
+                       regions=[[0, 1, 'lower', tags[0]], [2, 3, 'full', tags[1]], [4, 6, 'upper', tags[2]]]))
     # one region sticking out of the die
     for band in ('full', 'lower'):
         for kind in KINDS:
@@ -116,7 +122,7 @@ def body(I, case):
     tr = case['transposed']
     b = [0.0]
     for k in range(nb):
-        b.append(b[-1] + I.real(f'g{k}', DELTA, 250))
+        b.append(b[-1] + (I.real(f'g{k}', DELTA, 250) if 'gaps' not in case else case['gaps'][k]))
     W = b[-1]
     extra = 0
     if case['kind'] == 'outside':
@@ -168,12 +174,12 @@ def body(I, case):
     I.prove('die-covered', Implies(geo.p_in_open(dbox, px, py), Or(*[geo.p_in_closed(bx, px, py) for bx in boxes])))
     I.prove('areas-sum-to-die', Eq(sum([(bx[2] - bx[0]) * (bx[3] - bx[1]) for bx in boxes], 0), DW * DH))
     # every input region reported unchanged with its tag, in its own list; nothing else reported there
-    want = dict(block=[x for x in inputs if x['kind'] == '#'], spec=[x for x in inputs if x['kind'] == 'dsp'],
+    want = dict(block=[x for x in inputs if x['kind'] == '#'], spec=[x for x in inputs if x['kind'] in ('dsp', 'bram')],
                 fixed=[x for x in inputs if x['kind'] == 'fixed'])
     for g in ('block', 'spec', 'fixed'):
         I.prove(f'{g}-count', len(groups[g]) == len(want[g]))
         for x in want[g]:
-            tag = {'block': '#', 'spec': 'dsp', 'fixed': '_'}[g]
+            tag = {'block': '#', 'spec': x['kind'], 'fixed': '_'}[g]
             I.prove(f'{g}-reported-unchanged', Or(*[And(Eq(r.center.x, x['spec'][0]), Eq(r.center.y, x['spec'][1]),
                                                         Eq(r.shape.w, x['spec'][2]), Eq(r.shape.h, x['spec'][3]),
                                                         r.region == tag, r.fixed == (g == 'fixed')) for r in groups[g]]))
